@@ -450,7 +450,21 @@ func c13ProvidersInConfigOrder(c *Ctx) {
 			if !loops[inner][s] || s == inner {
 				continue
 			}
-			if existsPathFrom(s, func(in ssa.Instruction) bool { return in.Block() == inner }, func(in ssa.Instruction) bool { return in == newProv }) != nil {
+			if existsPathFrom(s, func(in ssa.Instruction) bool { return in.Block() == inner }, func(in ssa.Instruction) bool {
+				if in == newProv {
+					return true
+				}
+				// repair 159: an sds context reserves its position (append(mng.providers, nil)) in the loop and is
+				// registered, by that position, once every context was accepted - the order is kept
+				if call, isC := in.(*ssa.Call); isC {
+					if b, isB := call.Common().Value.(*ssa.Builtin); isB && b.Name() == "append" {
+						if _, f, _, okf := loadedField(call.Common().Args[0]); okf && f == "providers" {
+							return true
+						}
+					}
+				}
+				return false
+			}) != nil {
 				skip = true
 			}
 		}
